@@ -14,7 +14,7 @@ import (
 )
 
 const (
-	plMaxDur  = int64(1_000_000_000_000_000) // 10^15 ns: above this float64 seconds no longer resolve 1 ns
+	plMaxDur  = int64(1_000_000_000_000_000 - 5000) // just below 10^15 ns (≈ 11.5 days): above this float64 seconds no longer resolve 1 ns
 	plHalfRes = int64(5000)                  // half of the 10 us text resolution
 )
 
